@@ -580,7 +580,7 @@ func parseDev(str string) (devType byte, major uint32, minor uint32, err error) 
 			goto parseError
 		}
 		major = uint32(v1)
-		v2, err = strconv.ParseUint(parts[1], 10, 8)
+		v2, err = strconv.ParseUint(parts[1], 10, 20)
 		if err != nil {
 			goto parseError
 		}
